@@ -1,7 +1,8 @@
 import PyrollModel.Gen.C04
 import PyrollModel.Gen.C04Groove
+import PyrollModel.Gen.C04Valid
 import PyrollModel.EvalDriver
 /-- Float evaluation of everything generated for C04: solver closed forms and residuals, constructor plumbing
-    (`<plumb name>.<keyword>`), the junction chain, the four-way resolution and the contour-line functions
-    (see PyrollModel/EvalDriver.lean for the protocol). -/
-def main : IO Unit := EvalDriver.main (Gen.C04.fullTable ++ Gen.C04.Groove.table)
+    (`<plumb name>.<keyword>`), the junction chain, the four-way resolution, the contour-line functions and both sides of
+    every test of `test_plausibility` (see PyrollModel/EvalDriver.lean for the protocol). -/
+def main : IO Unit := EvalDriver.main (Gen.C04.fullTable ++ Gen.C04.Groove.table ++ Gen.C04.Valid.table)
